@@ -150,7 +150,15 @@ func vc12clean() {
 type vc12run struct {
 	b   *Builder
 	ids map[interface{}]int
+	nas int // counts As() calls on unexported functions / methods: they rotate through different literals
 }
+
+// distinct function literals of one signature each, as a user writes them when a chain is repeated in a second statement
+var vc12IfAs = []func(*IContext, int) int{
+	func(*IContext, int) int { return 0 }, func(*IContext, int) int { return -1 }, func(*IContext, int) int { return -2 },
+}
+var vc12FnAs = []func(int) int{func(int) int { return 0 }, func(int) int { return -1 }}
+var vc12UmAs = []func(*vc12ucopy, int) int{func(*vc12ucopy, int) int { return 0 }, func(*vc12ucopy, int) int { return -1 }}
 
 func (r *vc12run) id(m interface{}) string {
 	n, ok := r.ids[m]
@@ -262,17 +270,26 @@ func (r *vc12run) step(toks []string) string {
 		m := b.Struct(&vc12T{}).Method(toks[1])
 		mk, stub, cb = m, func() ExportedMocker { return m }, vc12StK[kidx()]
 	case "if":
-		m := b.Interface(&vc12IV).Method(toks[1])
-		mk, stub, cb = m, func() ExportedMocker { return m.As(func(*IContext, int) int { return 0 }) }, vc12IfK[kidx()]
+		// "M", "M.a1", "M.a2": the same method, As() is given a different function literal of the same signature
+		// (As only stores the signature holder; which literal is passed must not matter)
+		name, lit := toks[1], 0
+		if i := strings.Index(name, ".a"); i >= 0 {
+			lit = vc12idx(name[i+2:], len(vc12IfAs))
+			name = name[:i]
+		}
+		m := b.Interface(&vc12IV).Method(name)
+		mk, stub, cb = m, func() ExportedMocker { return m.As(vc12IfAs[lit]) }, vc12IfK[kidx()]
 	case "xf":
 		m := b.ExportFunc("vc12" + toks[1])
-		mk, stub, cb = m, func() ExportedMocker { return m.As(func(int) int { return 0 }) }, vc12FnK[kidx()]
+		r.nas++
+		mk, stub, cb = m, func() ExportedMocker { return m.As(vc12FnAs[r.nas%len(vc12FnAs)]) }, vc12FnK[kidx()]
 	case "xs":
 		if toks[1] != "um" {
 			panic("bad-op")
 		}
 		m := b.ExportStruct("*vc12u").Method("um")
-		mk, stub, cb, recv = m, func() ExportedMocker { return m.As(func(*vc12ucopy, int) int { return 0 }) }, vc12UmK[kidx()], true
+		r.nas++
+		mk, stub, cb, recv = m, func() ExportedMocker { return m.As(vc12UmAs[r.nas%len(vc12UmAs)]) }, vc12UmK[kidx()], true
 	default:
 		panic("bad-op")
 	}
